@@ -23,7 +23,7 @@ type idents struct {
 func genC06(r *Rng, tier string, idx int) *Plan {
 	p := &Plan{SchedSeed: r.U64()}
 	p.Spec = genSpec(r, genOpts{Filters: 1, NoDiscovery: true, NoFetch: true, ForceStore: "memory"})
-	p.Mode = []string{"replay", "same-instant", "time-window", "stale-cookie"}[idx%4]
+	p.Mode = []string{"replay", "same-instant", "time-window", "stale-cookie", "restart"}[idx%5]
 	// the request instant: somewhere in the first simulated day, at nanosecond granularity
 	p.Ops = []Op{{ID: 1, Kind: "at", D: r.Intn(86400), Args: map[string]string{"ns": fmt.Sprint(r.Intn(1000000000))}},
 		{ID: 2, Kind: "window", D: []int{50, 200, 1000}[r.Intn(3)]}, // +- ns known to the attacker
@@ -131,6 +131,49 @@ func runC06(p *Plan) *Result {
 			}
 		}
 		res.Probes["same-instant-logins"] += k
+	case "restart":
+		// a login is restarted by presenting the id of the still-pending one: everything must be fresh
+		var seq []idents
+		inBubble(func() {
+			w := NewWorld(p.Spec, 1, 0, nil)
+			defer w.Close()
+			w.Boot()
+			if w.Rep.BootErr != nil {
+				return
+			}
+			time.Sleep(at)
+			f := w.Filters[0]
+			cookie := ""
+			for i := 0; i < k+1; i++ {
+				hdr := map[string]string{}
+				if cookie != "" {
+					hdr["cookie"] = cookie
+				}
+				rec := w.Check(0, "restart", "https", f.Spec.AppHost, "/x", hdr)
+				if rec.Class != "redirect-idp" || len(rec.SetCookie) != 1 {
+					break
+				}
+				pc := parseSetCookie(rec.SetCookie[0])
+				ar := f.IdP.parseAuth(rec.Location)
+				seq = append(seq, idents{SID: pc.Value, State: ar.Param("state"), Nonce: ar.Param("nonce"), Challenge: ar.Param("code_challenge"), OK: pc.Value != ""})
+				cookie = pc.Name + "=" + pc.Value
+			}
+		})
+		evals = len(seq)
+		for i := 0; i < len(seq); i++ {
+			for j := i + 1; j < len(seq); j++ {
+				what := seq[i].shares(seq[j])
+				if what == "" && seq[i].Challenge == seq[j].Challenge {
+					what = "code_challenge"
+				}
+				if what != "" {
+					viol("restarted-login-reuses:"+what, fmt.Sprintf("login redirects %d and %d of one client (each presenting the previous, still pending, session id) share the %s", i, j, what))
+					i = len(seq)
+					break
+				}
+			}
+		}
+		res.Probes["restarted-logins"] += evals
 	case "stale-cookie":
 		// a login redirect answering a request that presents an id: the new id must not be derivable
 		ids := loginsAt(p.Spec, at, 2, "attackerchosenid0000000000000000000000000000000000000000000000000")
